@@ -199,6 +199,11 @@ func (i incrementalFactory) New(ctx context.Context) gossip.Task {
 	a := ctx.Value("agent").(*gossip.Agent)
 	b := ctx.Value("batch").(*protocol.BatchSnapshots)
 
+	// peers are not trusted: a batch without (valid) snapshots carries nothing to do
+	if !validBatch(b) {
+		return func() error { return errorNoSnapshots }
+	}
+
 	return func() error {
 		timer := prometheus.NewTimer(QedMonitorBatchesProcessSeconds)
 		defer timer.ObserveDuration()
